@@ -8,7 +8,9 @@ Import ListNotations.
 From NV Require Import Gen.ShardDumpConsts Shard.Dump.
 
 Record case := mkCase {
-  c_tbl : list bytes;               (* distinct byte strings of the case *)
+  c_tbl : list (nat * nat * nat);   (* byte strings of the case: (0, off, len) = slice of the dump,
+                                       (1, off, len) = slice of the stream, (2, k, _) = k-th extra *)
+  c_extra : list bytes;
   c_dumprecs : list nat;            (* put objects in the order the dump lists them (tbl idx) *)
   c_dump : bytes;                   (* bytes written by Shard.Dump *)
   c_dump_count : nat;               (* count returned by Shard.Dump *)
@@ -23,7 +25,17 @@ Record case := mkCase {
   c_stored : list nat               (* contents of the target shard (tbl idx) *)
 }.
 
-Definition get (c : case) (i : nat) : bytes := nth i (c_tbl c) [].
+Definition stream_of (c : case) : bytes :=
+  match c_stream c with Some s => s | None => c_dump c end.
+
+Definition slice (off len : nat) (s : bytes) : bytes := firstn len (skipn off s).
+
+Definition get (c : case) (i : nat) : bytes :=
+  match nth i (c_tbl c) (2, 0, 0) with
+  | (0, off, len) => slice off len (c_dump c)
+  | (1, off, len) => slice off len (stream_of c)
+  | (_, k, _) => nth k (c_extra c) []
+  end.
 
 (* a body that is not in the oracle table is "rejected with class 98": the comparison
    then fails and the case is looked at *)
@@ -53,10 +65,8 @@ Definition res_eq (r : result) (c : case) : bool :=
   && Nat.eqb (err_code (err r)) (c_err c)
   && set_eq (delivered r) (map (get c) (c_stored c)).
 
-Definition stream_of (c : case) : bytes :=
-  match c_stream c with Some s => s | None => c_dump c end.
-
-(* Shard.Dump wrote magic ++ records of exactly the listed objects *)
+(* Shard.Dump wrote magic ++ records of exactly the listed byte strings (that these are
+   byte-for-byte the objects put into the source shard is compared by the driver) *)
 Definition dump_ok (c : case) : bool :=
   bytes_eqb (dump (map (get c) (c_dumprecs c))) (c_dump c)
   && Nat.eqb (length (c_dumprecs c)) (c_dump_count c).
